@@ -240,6 +240,8 @@ class Tr:
             return self.call(e, env, k)
         if isinstance(e, ast.ListComp):
             return self.listcomp(e, env, k)
+        if isinstance(e, ast.Dict) and not e.keys:
+            return k('[]', 'emptylist')          # a dict used as a set of keys (spec: keysets)
         if isinstance(e, ast.List):
             if not e.elts:
                 return k('[]', 'emptylist')
@@ -337,9 +339,9 @@ class Tr:
             if len(e.keywords) == 1 and not e.args and e.keywords[0].arg == 'hours' and 'hours_us' in self.ops:
                 return self.expr(e.keywords[0].value, env, lambda h, th: k('(%s %s)' % (self.ops['hours_us'], self.coerce(h, th, 'num')), 'Z'))
             raise Unsupported('timedelta(...) other than days= / hours=')
-        if name == 'id' and len(e.args) == 1 and not e.keywords and self.spec.get('heap'):
+        if name == 'id' and len(e.args) == 1 and not e.keywords and (self.spec.get('heap') or self.spec.get('obj_type')):
             # id(obj): the identity of a heap object is its number
-            return self.expr(e.args[0], env, lambda a, ta: k(self.coerce(a, ta, 'obj'), 'obj'))
+            return self.expr(e.args[0], env, lambda a, ta: k(self.coerce(a, ta, self.OBJ), self.OBJ))
         if name == 'range' and len(e.args) == 3 and not e.keywords and ast.unparse(e.args[2]) == '-1' and ast.unparse(e.args[1]) == '-1':
             # range(hi, -1, -1): hi, hi-1, .., 0
             def down(hi, thi):
@@ -955,6 +957,10 @@ class Tr:
                 g = self.grows(n)
                 if g is not None and g not in names:
                     names.append(g)
+                if isinstance(n, (ast.Assign, ast.Delete)) and len(n.targets) == 1 and isinstance(n.targets[0], ast.Subscript) \
+                        and isinstance(n.targets[0].value, ast.Name) and n.targets[0].value.id in self.spec.get('keysets', ()) \
+                        and n.targets[0].value.id not in names:
+                    names.append(n.targets[0].value.id)
                 if isinstance(n, ast.Expr) and isinstance(n.value, ast.Call) and isinstance(n.value.func, ast.Attribute) \
                         and n.value.func.attr == 'remove' and isinstance(n.value.func.value, ast.Name) \
                         and n.value.func.value.id in self.spec.get('locals', {}) and n.value.func.value.id not in names:
@@ -987,6 +993,8 @@ class Tr:
                             pass
                         elif isinstance(t, ast.Subscript) and isinstance(t.value, ast.Attribute) \
                                 and t.value.attr in self.spec.get('obj_writes', {}):
+                            pass
+                        elif isinstance(t, ast.Subscript) and isinstance(t.value, ast.Name) and t.value.id in self.spec.get('keysets', ()):
                             pass
                         elif not isinstance(t, ast.Name):
                             raise Unsupported('assignment to %s' % ast.unparse(t))
@@ -1169,6 +1177,26 @@ class Tr:
                 return '(if existsb (%s %s) %s then %s else Crash ValueError)' % (
                     self.eqb(lt[1]), a2, env[lname][0], self.bind(lname, '(%s %s %s)' % (self.ops.get('remove1', 'remove1'), a2, env[lname][0]), lt, env, nxt))
             return self.expr(s.value.args[0], env, removed)
+        ks = self.spec.get('keysets', ())
+        if isinstance(s, ast.Assign) and len(s.targets) == 1 and isinstance(s.targets[0], ast.Subscript) \
+                and isinstance(s.targets[0].value, ast.Name) and s.targets[0].value.id in ks:
+            # d[k] = v on a dict of which only the keys matter here (membership tests): the key joins
+            dn = s.targets[0].value.id
+            lt = self.local_type(dn)
+            self.own_list(dn)
+            return self.expr(s.targets[0].slice, env, lambda a, ta: self.expr(s.value, env, lambda _v, _tv: self.bind(
+                dn, '(%s ++ [%s])' % (env[dn][0], self.coerce(a, ta, lt[1])), lt, env, nxt)))
+        if isinstance(s, ast.Delete) and len(s.targets) == 1 and isinstance(s.targets[0], ast.Subscript) \
+                and isinstance(s.targets[0].value, ast.Name) and s.targets[0].value.id in ks:
+            dn = s.targets[0].value.id
+            lt = self.local_type(dn)
+            self.own_list(dn)
+
+            def deleted(a, ta):
+                a2 = self.coerce(a, ta, lt[1])
+                return '(if existsb (%s %s) %s then %s else Crash KeyError)' % (
+                    self.eqb(lt[1]), a2, env[dn][0], self.bind(dn, '(%s %s %s)' % (self.ops.get('remove1', 'remove1'), a2, env[dn][0]), lt, env, nxt))
+            return self.expr(s.targets[0].slice, env, deleted)
         g = self.grows(s)
         if g is not None:
             t = self.local_type(g)
